@@ -106,6 +106,13 @@ PROBES = [("foot", "m"), ("yard", "m"), ("mile", "m"), ("kfoot", "m"), ("pound",
 
 def battery(ureg, pint, newunits):
     out = []
+    # asked first and again last: answering the questions in between (some of them refused) must not
+    # change the listing within one and the same activation
+    try:
+        compat_first = (tuple(sorted(str(x) for x in ureg.get_compatible_units("s"))),
+                        tuple(sorted(str(x) for x in ureg.get_compatible_units("g"))))
+    except Exception as e:  # noqa: BLE001
+        compat_first = "raised:" + type(e).__name__
     for a, b in PROBES + [(u, "m") for u in newunits]:
         try:
             out.append(str(ureg.convert(F(1), a, b)))
@@ -146,6 +153,12 @@ def battery(ureg, pint, newunits):
         out.append(tuple(sorted(str(x) for x in ureg.get_compatible_units("g"))))
     except Exception as e:  # noqa: BLE001
         out.append("raised:" + type(e).__name__)
+    try:
+        compat_last = (tuple(sorted(str(x) for x in ureg.get_compatible_units("s"))),
+                       tuple(sorted(str(x) for x in ureg.get_compatible_units("g"))))
+    except Exception as e:  # noqa: BLE001
+        compat_last = "raised:" + type(e).__name__
+    out.append(("compatible-listing-stable-within-the-battery", compat_first == compat_last))
     out.append(("depth", len(ureg._active_ctx.contexts)))
     # registry-wide settings are part of "no residue": every plain attribute of the registry object
     # (on_redefinition policy, default system name, case sensitivity, auto-conversion flags, ...)
@@ -322,6 +335,9 @@ def run_sequence(seq, pint, rec, probe_each=False):
     rec.case(("seq",) + tuple(seq), nontrivial=nontrivial)
     if mach.trouble:
         rec.violation(mach.trouble[0], {"sequence": list(seq), "detail": repr(mach.trouble[1:])}, **fields)
+    if ("compatible-listing-stable-within-the-battery", False) in got:
+        rec.violation("listing-changed-by-read-only-queries",
+                      {"sequence": list(seq), "model_stack": repr(mach.stack)}, **fields)
     if got != want:
         diff = [(i, g, w) for i, (g, w) in enumerate(zip(got, want)) if g != w][:4]
         rec.violation("differs-from-fresh-twin-with-model-stack",
